@@ -156,6 +156,7 @@ def shapes():
         return Predicate(ex.int(f'{t}_pi'), ex.int(f'{t}_ps'), 2)
     return {
         'Constant': C, 'Variable': V, 'Atomic': A, 'Predicate/1': P1, 'Predicate/2': P2,
+        'SystemPredicate': lambda ex, t: (Predicate.Identity, Predicate.Existence)[ex.pick(2, f'{t}_sys')],
         'Quantifier': lambda ex, t: list(Quantifier)[ex.pick(2, f'{t}_q')],
         'Operator': lambda ex, t: list(Operator)[ex.pick(len(Operator), f'{t}_o')],
         'Fc': lambda ex, t: P1(ex, t)(C(ex, t)),
